@@ -125,10 +125,11 @@ Proof. exact plines_run_ok. Qed.
 Print Assumptions C02_lines_oracle.
 
 (** ... and its loop never indexes the lines or a line out of range ([None] = the Go code would panic) for a node
-    whose line and column count from 1 and a minimum column >= 1 (every call site passes key column + 2 or 1). *)
+    whose line and column count from 1 and a minimum column >= 1 (every call site passes 1), whatever its style
+    (block scalar or not) and anchor. *)
 Theorem C02_positions_total :
   forall lines n mc, 1 <= n_line n -> 1 <= n_col n -> 1 <= mc ->
-    pos_lines lines (n_value n) (n_line n) (n_col n) mc <> None.
+    forall block anchor_len, pos_lines lines (n_value n) (n_line n) (n_col n) mc block anchor_len <> None.
 Proof. exact pos_lines_total. Qed.
 Print Assumptions C02_positions_total.
 
